@@ -499,7 +499,7 @@ def run(ctx):
     S.check_shared(ctx, S.shared_case(ctx.rng), 'C02')
   lazy_stream(ctx, conv, pending, 40 if not thorough else 400)
   flush(ctx, drv, conv, pending)
-  n = 420 if not thorough else 8000
+  n = 620 if not thorough else 8000
   done = 0
   while done < n:
     if ctx.elapsed() > (70 if not thorough else 1000):
